@@ -195,9 +195,9 @@ class Concat(Expr):
                     cast_dfs.append(AsType(df, dtypes=needs_astype))
                 else:
                     cast_dfs.append(df)
-            elif is_series_like(df) and is_series_like(self._meta):
-                if not df.dtype == self._meta.dtype and not isinstance(
-                    df.dtype, pd.CategoricalDtype
+            elif is_series_like(df._meta) and is_series_like(self._meta):
+                if not df._meta.dtype == self._meta.dtype and not isinstance(
+                    df._meta.dtype, pd.CategoricalDtype
                 ):
                     cast_dfs.append(AsType(df, dtypes=self._meta.dtype))
                 else:
